@@ -1829,8 +1829,8 @@ def build_cases(ctx):
     cases += [gen_drid_case(rng) for _ in range(30 * k)]
     cases += [gen_karplus_case(rng) for _ in range(30 * k)]
     cases += [gen_dipole_case(rng) for _ in range(12 * k)]
-    cases += [gen_geom_case(rng, "inertia") for _ in range(15 * k)]
-    cases += [gen_order_case(rng, i) for i in range(24 * k)]
+    cases += [gen_geom_case(rng, "inertia") for _ in range(12 * k)]
+    cases += [gen_order_case(rng, i) for i in range(15 * k)]
     cases += [gen_rdf_t_case(rng, i) for i in range(24 * k)]
     return cases
 
